@@ -156,6 +156,15 @@ class HistRunner:
                     os.unlink(fp)
                 os.symlink(os.path.basename(ud), fp)
                 self.clock.tick(fp)
+            elif how == 'samesize' and os.path.isfile(fp) and not os.path.islink(fp) and os.path.getsize(fp) > 1:
+                # an edit that keeps the size of the file, made within the same wall-clock second as the state redo recorded
+                # (only the sub-second part of the mtime differs)
+                st = os.stat(fp)
+                data = (b'U%d' % (m.srcver.get(n, 0) + 1)).ljust(st.st_size - 1, b'u')[:st.st_size - 1] + b'\n'
+                write_file(fp, data)
+                sec, sub = divmod(st.st_mtime_ns, 10 ** 9)
+                ns = sec * 10 ** 9 + (sub + 500000000) % 10 ** 9
+                os.utime(fp, ns=(ns, ns))
             elif how == 'replace' or not os.path.lexists(fp):
                 tmp = fp + '.usertmp'
                 write_file(tmp, data)
